@@ -570,3 +570,23 @@ theorem C16_conn_closed_is_final (s : RState) (hc : s.ptr = PState.closed) :
 
 example : GB.LTS.run rstep rinit [.stream 0, .close 0, .close 0, .stream 0, .close 0, .stream 0, .stream 1, .stream 1, .stream 1]
     ≠ none := by decide
+
+/-- A Stream attempt racing Close always ENDS (fixed code): `waitForReady` on the closed connection returns at once,
+    and in EVERY state of the race LTS every Stream goroutine that has not returned yet has an enabled
+    step — none is blocked by anything a Close goroutine does. -/
+theorem C16_conn_stream_racing_close_ends (s : RState) (dl : Bool) :
+    waitOnClosed true dl = .atOnce ∧
+    (∀ i, (∀ r, s.spc i ≠ .done r) → (rstep s (.stream i)).isSome = true) := by
+  refine ⟨rfl, ?_⟩
+  intro i hnd
+  simp only [rstep]
+  cases hp : s.spc i with
+  | idle => rfl
+  | loaded p => rfl
+  | waited p => rfl
+  | done r => exact absurd hp (hnd r)
+
+/-- Negative witness on the ORIGINAL `waitForReady`: a Stream whose context has no deadline and which loaded the
+    connection state just before Close closed the connection waits for ever (with a deadline: half of it). -/
+theorem C16_conn_original_wait_on_closed_conn_never_returns :
+    waitOnClosed false false = .never ∧ waitOnClosed false true = .atHalfDeadline := ⟨rfl, rfl⟩
